@@ -6,9 +6,9 @@
 // storage wrapper over ONE shared storage.  The gate blocks each storage operation until the
 // scheduler grants it, so an interleaving is forced, not hoped for.
 //
-//   sched code <tc> <ta> key <0|1> max <M> pre <client> <n> th <n> (<a|r> <listener> <laddr> <fault>)* ev <m> (C|X|t<i>)*
-//   fine  seed <s> code <tc> <ta> max <M> pre <client> <n> th <n> (<a|r> <listener> <laddr> <fault>)*
-//        ## res <n> (<result>)* maps <k> (<listener>:<laddr>:<tc>:<ta>)* rec <absent | a<0|1>r<0|1>:by<id|->:m<tuple|x|->>
+//	sched code <tc> <ta> key <0|1> max <M> pre <client> <n> th <n> (<a|r> <listener> <laddr> <fault>)* ev <m> (C|X|t<i>)*
+//	fine  seed <s> code <tc> <ta> max <M> pre <client> <n> th <n> (<a|r> <listener> <laddr> <fault>)*
+//	     ## res <n> (<result>)* maps <k> (<listener>:<laddr>:<tc>:<ta>)* rec <absent | a<0|1>r<0|1>:by<id|->:m<tuple|x|->>
 //
 // sched: phase granularity (claim / get / quota / create / update / rollback / release); an event t<i>
 // lets thread i run its next phase; C creates the code; X lets the activation period run out (real
@@ -274,9 +274,9 @@ type caseSpec struct {
 }
 
 type caseRun struct {
-	spec    caseSpec
-	mu      sync.Mutex
-	afterX  bool
+	spec     caseSpec
+	mu       sync.Mutex
+	afterX   bool
 	staleTTL bool // a connection-code record was written after X (its TTL was computed before X)
 }
 
@@ -368,7 +368,7 @@ func parseCase(line string) (caseSpec, error) {
 			s.evs = append(s.evs, e)
 		}
 	}
-	if s.ta < 0 || s.ta >= len(targetAddrs) || s.tc < 0 || s.preN < 0 || s.preN > 200 {
+	if s.ta < 1 || s.ta >= len(targetAddrs) || s.tc < 1 || s.preN < 0 || s.preN > 200 {
 		return s, bad
 	}
 	for _, ts := range s.ths {
